@@ -52,11 +52,11 @@ theorem scanList_spec (n : Nat) (s : Scanner) (hi : Inv s) (hf : s.src.size - s.
     obtain ⟨hadv, hline, hprog⟩ := scanToken_spec s
     have hi' := Inv.of_adv hadv hi
     have hbnd : (scanToken s).1.line ≤ 1 + s.src.toList.count '\n' := by
-      rw [hline]
+      refine Nat.le_trans hline.2 ?_
       have := hi'.2.2
       rw [hadv.src] at this
       exact Nat.le_trans this (Nat.add_le_add_left (nlUpTo_le_total _ _) 1)
-    have hge : s.line ≤ (scanToken s).1.line := by rw [hline]; exact hadv.line
+    have hge : s.line ≤ (scanToken s).1.line := hline.1
     by_cases he : (scanToken s).1.kind = .eof
     · have hl : ∀ m, scanList (m + 1) s = [(scanToken s).1] := by
         intro m; simp [scanList, he]
@@ -81,7 +81,7 @@ theorem scanList_spec (n : Nat) (s : Scanner) (hi : Inv s) (hf : s.src.size - s.
       · rw [hl]
         refine List.pairwise_cons.2 ⟨?_, hpw⟩
         intro t' ht'
-        rw [hline]; exact (hlines t' ht').1
+        exact Nat.le_trans hline.2 (hlines t' ht').1
       · rw [hl]
         intro t' ht'
         rcases List.mem_cons.1 ht' with h | h
